@@ -8,6 +8,8 @@ def compressedSuffix : String := ".tar.gz"
 def compressedSuffixBytes : List Nat := [46, 116, 97, 114, 46, 103, 122]
 def markKeys : List String := ["path", "path+="]
 def pathParts : List String := ["join-b64key", "param2", "param3", "field-Suffix"]
+def storeCalls : List String := ["mark-final", "remove-final", "store", "rename-tmp-final"]
+def retrieveCalls : List String := ["exists-entry", "mark-entry", "restore", "restore"]
 def tmpSuffix : String := "="
 def tmpSuffixBytes : List Nat := [61]
 def storeMarks : List String := ["final"]
